@@ -79,6 +79,7 @@ def run(ctx, chk):
     chk.assume("operations outside the primitive table raise nothing")
     r3(ctx, chk)
     r4(ctx, chk)
+    r5(ctx, chk)
 
 
 def r4(ctx, chk):
@@ -161,6 +162,226 @@ def r4(ctx, chk):
                        key={"function": pf.key, "construct": "non-blank guard on " + n.func.value.id + ".append"}, file=pf.file,
                        function=pf.qual, line=n.lineno, text=" ".join(ast.unparse(n).split())[:120])
     chk.floor(rule + ".sinks", n_sink, 1, "reported substrings that come from split pieces")
+
+
+# ---- R5: the reported substring is made of the original text only ------------------------------------------
+ORIG_METHODS = {"strip", "lstrip", "rstrip", "split", "copy", "join"}
+ORIG_FUNCS = {"list", "filter", "bool", "tuple"}
+ORIG_SELF_CALLS = {"_join_chunk", "_word_split", "_join"}
+
+
+def _value_names(e):
+    """names an expression's VALUE is built from (index positions and keyword `settings=` plumbing excluded)"""
+    out = set()
+
+    def walk(x):
+        if isinstance(x, ast.Subscript):
+            walk(x.value)
+            return
+        if isinstance(x, ast.Call):
+            if isinstance(x.func, ast.Attribute):
+                walk(x.func.value)
+            for a in x.args:
+                walk(a)
+            return
+        if isinstance(x, ast.Name):
+            if x.id not in ORIG_FUNCS:
+                out.add(x.id)
+            return
+        for c in ast.iter_child_nodes(x):
+            walk(c)
+    walk(e)
+    return out
+
+
+def _bad_ops(e):
+    """operations on the value path of the expression that can put foreign characters into the value
+    (index and slice positions are not on the value path)"""
+    bad = []
+
+    def walk(n):
+        if isinstance(n, ast.Subscript):
+            walk(n.value)
+            return
+        if isinstance(n, ast.Call):
+            fn = n.func
+            if isinstance(fn, ast.Attribute):
+                if isinstance(fn.value, ast.Name) and fn.value.id == "self":
+                    if fn.attr not in ORIG_SELF_CALLS:
+                        bad.append("self.%s()" % fn.attr)
+                else:
+                    if fn.attr not in ORIG_METHODS:
+                        bad.append(".%s()" % fn.attr)
+                    if fn.attr == "join" and isinstance(fn.value, ast.Constant):
+                        bad.append("pieces re-joined with the constant %r instead of the text's own separator" % fn.value.value)
+                    walk(fn.value)
+            elif isinstance(fn, ast.Name) and fn.id not in ORIG_FUNCS:
+                bad.append("%s()" % fn.id)
+            for a in n.args:
+                if not (isinstance(a, ast.Name) and a.id in ORIG_FUNCS):
+                    walk(a)
+            return
+        if isinstance(n, ast.Constant):
+            if isinstance(n.value, str) and n.value.strip(" .,:()[]-'") != "":
+                bad.append("constant %r" % n.value)
+            return
+        if isinstance(n, (ast.BinOp, ast.JoinedStr)):
+            bad.append(type(n).__name__)
+            return
+        for c in ast.iter_child_nodes(n):
+            walk(c)
+    walk(e)
+    return bad
+
+
+def _orig_closure(f, roots, plumbing):
+    """greatest set of local names, containing the roots, each of whose bindings is built only from members of the set
+    with text-preserving operations; returns (set, {name: reason it was dropped})"""
+    binds = {}
+    for n in iter_own_nodes(f.node):
+        if isinstance(n, ast.Assign):
+            for t in n.targets:
+                if isinstance(t, ast.Name):
+                    binds.setdefault(t.id, []).append(n.value)
+                elif isinstance(t, ast.Subscript) and isinstance(t.value, ast.Name):
+                    binds.setdefault(t.value.id, []).append(n.value)
+        elif isinstance(n, ast.AugAssign) and isinstance(n.target, ast.Name):
+            binds.setdefault(n.target.id, []).append(n.value)
+        elif isinstance(n, ast.Call) and isinstance(n.func, ast.Attribute) and isinstance(n.func.value, ast.Name) \
+                and n.func.attr in ("append", "insert", "extend") and n.args:
+            binds.setdefault(n.func.value.id, []).append(n.args[-1])
+        elif isinstance(n, ast.For) and isinstance(n.target, ast.Name):
+            binds.setdefault(n.target.id, []).append(n.iter)
+    cand = set(binds) | set(roots)
+    why = {}
+    changed = True
+    while changed:
+        changed = False
+        for name in sorted(cand - set(roots)):
+            for e in binds.get(name, []):
+                foreign = _value_names(e) - cand - plumbing
+                ops = _bad_ops(e)
+                if foreign or ops:
+                    why[name] = "`%s` uses %s" % (" ".join(ast.unparse(e).split())[:70], ", ".join(sorted(foreign) + ops))
+                    cand.discard(name)
+                    changed = True
+                    break
+    return cand, why
+
+
+def r5(ctx, chk):
+    rule = "C17.R5"
+    ix = ctx.ix
+    # translate_search: the second returned list (original side) is built from the tokens of the original sentence only
+    ts = ix.func("dateparser.languages.locale:Locale.translate_search")
+    rets = [s_ for s_ in iter_own_stmts(ts.node.body) if isinstance(s_, ast.Return) and isinstance(s_.value, ast.Tuple) and len(s_.value.elts) == 2]
+    if len(rets) != 1 or not isinstance(rets[0].value.elts[1], ast.Name):
+        raise AnalysisError(rule, "translate_search does not return a pair of names")
+    orig_list = rets[0].value.elts[1].id
+    roots = set()
+    for n in iter_own_nodes(ts.node):
+        if isinstance(n, ast.Assign) and isinstance(n.targets[0], ast.Tuple) and isinstance(n.value, ast.Call) \
+                and ast.unparse(n.value.func).endswith("_simplify_split_align") and isinstance(n.targets[0].elts[0], ast.Name):
+            roots.add(n.targets[0].elts[0].id)
+            sent = n.value.args[0] if n.value.args else None
+    if not roots:
+        raise AnalysisError(rule, "translate_search: the aligned original tokens are not found")
+    ok_set, why = _orig_closure(ts, roots, {"self", "settings"})
+    chk.ob(rule, "translate_search: the original-side list `%s` is built only from the original sentence's tokens" % orig_list, orig_list in ok_set,
+           why.get(orig_list, "") or "; ".join("%s: %s" % kv for kv in sorted(why.items()))[:300],
+           key={"function": ts.key, "construct": "original side provenance"}, file=ts.file, function=ts.qual, line=ts.node.lineno)
+    # the aligned tokens themselves: first result of _simplify_split_align comes from _word_split(<its text argument>)
+    al = ix.func("dateparser.languages.locale:Locale._simplify_split_align")
+    p_text = al.params()[1]
+    arets = [s_ for s_ in iter_own_stmts(al.node.body) if isinstance(s_, ast.Return) and isinstance(s_.value, ast.Tuple)]
+    firsts = {ast.unparse(r_.value.elts[0]) for r_ in arets}
+    ok = len(firsts) == 1
+    if ok:
+        nm = firsts.pop()
+        aset, awhy = _orig_closure(al, {p_text}, {"self", "settings"})
+        ok = nm in aset
+    chk.ob(rule, "_simplify_split_align: the first returned list is the word split of the untouched text (padding with '' only)", ok,
+           "", key={"function": al.key, "construct": "aligned originals provenance"}, file=al.file, function=al.qual, line=al.node.lineno)
+    # search.py: substrings come from the original-side argument only
+    pf = ix.func("dateparser.search.search:_ExactLanguageSearch.parse_found_objects")
+    sp = ix.func("dateparser.search.search:_ExactLanguageSearch.search_parse")
+    # which parameter receives the original side
+    orig_param = None
+    for n in iter_own_nodes(sp.node):
+        if isinstance(n, ast.Assign) and isinstance(n.targets[0], ast.Tuple) and isinstance(n.value, ast.Call) and ast.unparse(n.value.func) == "self.search":
+            sec = ast.unparse(n.targets[0].elts[1])
+            for c in iter_own_nodes(sp.node):
+                if isinstance(c, ast.Call) and ast.unparse(c.func).endswith("parse_found_objects"):
+                    for kw in c.keywords:
+                        if ast.unparse(kw.value) == sec and kw.arg != "to_parse" and orig_param is None:
+                            orig_param = kw.arg
+                    ps = pf.params()
+                    for i_, a in enumerate(c.args):
+                        if ast.unparse(a) == sec and orig_param is None and i_ + 1 < len(ps):
+                            orig_param = ps[i_ + 1]
+    if orig_param is None:
+        raise AnalysisError(rule, "search_parse: cannot see which argument of parse_found_objects receives the original side")
+    sb = ix.func("dateparser.search.search:_ExactLanguageSearch.split_by")
+    sbp = sb.params()
+    # split_by(item, original, splitter): second member of every returned pair is made of params[2] (+ the splitter)
+    b_ok, bwhy = _orig_closure(sb, {sbp[2], sbp[3]}, {"self"})
+    pair_seconds = []
+    for n in iter_own_nodes(sb.node):
+        if isinstance(n, ast.List) and len(n.elts) == 2 and not isinstance(n.elts[0], ast.List):
+            pair_seconds.append(n.elts[1])
+    ok = bool(pair_seconds) and all(not (_value_names(e) - b_ok) and not _bad_ops(e) for e in pair_seconds)
+    chk.ob(rule, "split_by: the original-side member of every candidate pair is cut out of the original chunk", ok,
+           "; ".join("%s: %s" % kv for kv in sorted(bwhy.items()))[:200],
+           key={"function": sb.key, "construct": "split pieces provenance"}, file=sb.file, function=sb.qual, line=sb.node.lineno)
+    # parse_found_objects: roots = the original parameter and the second member of the split pairs
+    roots = {orig_param}
+    for n in iter_own_nodes(pf.node):
+        if isinstance(n, ast.For) and isinstance(n.target, ast.Tuple) and len(n.target.elts) == 2 and isinstance(n.target.elts[1], ast.Name):
+            it = n.iter
+            if isinstance(it, ast.Name):
+                for m in iter_own_nodes(pf.node):
+                    if isinstance(m, ast.Assign) and ast.unparse(m.targets[0]) == it.id and isinstance(m.value, ast.Call) \
+                            and ast.unparse(m.value.func).endswith("split_if_not_parsed") and len(m.value.args) == 2 \
+                            and not (_value_names(m.value.args[1]) - {orig_param}):
+                        roots.add(n.target.elts[1].id)
+    out_pos = None
+    prets = [s_ for s_ in iter_own_stmts(pf.node.body) if isinstance(s_, ast.Return) and isinstance(s_.value, ast.Tuple)]
+    sub_name = _substrings_name(ix)
+    # choose_best_split returns elements of its arguments: its second result carries the provenance of its second argument
+    for n in iter_own_nodes(pf.node):
+        if isinstance(n, ast.Assign) and isinstance(n.targets[0], ast.Tuple) and isinstance(n.value, ast.Call) \
+                and ast.unparse(n.value.func).endswith("choose_best_split") and len(n.value.args) == 2 and len(n.targets[0].elts) == 2:
+            cb = ix.func("dateparser.search.search:_ExactLanguageSearch.choose_best_split")
+            cps = cb.params()
+            crets = [s_ for s_ in iter_own_stmts(cb.node.body) if isinstance(s_, ast.Return) and isinstance(s_.value, ast.Tuple) and len(s_.value.elts) == 2]
+            if crets and all(_value_names(r_.value.elts[1]) <= {cps[2]} for r_ in crets) and isinstance(n.value.args[1], ast.Name):
+                # treat `second result` as an alias of the second argument
+                pf_alias = (ast.unparse(n.targets[0].elts[1]), n.value.args[1].id)
+                roots_alias = pf_alias
+            else:
+                roots_alias = None
+    ok_set, why = _orig_closure(pf, roots, {"self", "settings"})
+    if 'roots_alias' in dir() and roots_alias and roots_alias[1] in ok_set:
+        ok_set2, why2 = _orig_closure(pf, roots | {roots_alias[0]}, {"self", "settings"})
+        ok_set, why = ok_set2, why2
+    chk.ob(rule, "parse_found_objects: every reported substring is cut out of the original-side text", sub_name in ok_set,
+           why.get(sub_name, "") or "; ".join("%s: %s" % kv for kv in sorted(why.items()))[:300],
+           key={"function": pf.key, "construct": "substring provenance"}, file=pf.file, function=pf.qual, line=pf.node.lineno)
+
+
+def _substrings_name(ix):
+    pf = ix.func("dateparser.search.search:_ExactLanguageSearch.parse_found_objects")
+    sp = ix.func("dateparser.search.search:_ExactLanguageSearch.search_parse")
+    rets = [s for s in iter_own_stmts(pf.node.body) if isinstance(s, ast.Return) and isinstance(s.value, ast.Tuple)]
+    out_all = [e.id if isinstance(e, ast.Name) else None for e in rets[0].value.elts]
+    for n in iter_own_nodes(sp.node):
+        if isinstance(n, ast.Assign) and isinstance(n.targets[0], ast.Tuple) and isinstance(n.value, ast.Call) \
+                and ast.unparse(n.value.func).endswith("parse_found_objects"):
+            unpack = [ast.unparse(e) for e in n.targets[0].elts]
+            for z in iter_own_nodes(sp.node):
+                if isinstance(z, ast.Call) and isinstance(z.func, ast.Name) and z.func.id == "zip" and z.args and ast.unparse(z.args[0]) in unpack:
+                    return out_all[unpack.index(ast.unparse(z.args[0]))]
+    raise AnalysisError("C17.R5", "cannot tell which list returned by parse_found_objects holds the substrings")
 
 
 def _appends(stmts, names):
